@@ -34,25 +34,15 @@ theorem constants_match_enums :
 
 /-! ### Sign / SignatureVerify -/
 
-/-- the request does not contradict its digital signature algorithm: where that algorithm is known to the
-engine, a hashing algorithm named next to it selects the same hash and a cryptographic algorithm named next
-to it is the same algorithm -/
-def Consistent (T : Tables2) (p : SigParams) : Prop :=
-  ∀ d dh da, p.dsa = some d → lookupDsa T d = some (dh, da) →
-    (∀ h hn dg, p.hash = some h → lookupHash T h = some (hn, dg) → hn = dh) ∧ (∀ a, p.alg = some a → a = da)
-
-/-- **SignatureVerify mirrors Sign.**  For every parameter tuple `sign` accepts (digital signature
+/-- **SignatureVerify mirrors Sign.**  For EVERY parameter tuple `sign` accepts (digital signature
 algorithm, cryptographic algorithm, hashing algorithm, padding method — each present or absent, known or
-unknown) that does not contradict itself, `verify_signature` given the same tuple accepts it and selects
-the same padding scheme and the same hash (message digest and MGF1 hash). -/
+unknown), `verify_signature` given the same tuple accepts it and selects the same padding scheme and the
+same hash (message digest and MGF1 hash). -/
 theorem verify_plan_matches_sign_plan (T : Tables2) (p : SigParams) (sp : SigPlan)
-    (h : signPlan T p = .ok sp) (hc : Consistent T p) : verifyPlan T p = .ok sp := by
+    (h : signPlan T p = .ok sp) : verifyPlan T p = .ok sp := by
   obtain ⟨dsa, alg, hash, padding⟩ := p
-  unfold Consistent at hc
-  simp only at hc
   unfold signPlan at h
   unfold verifyPlan
-  -- the selection agrees
   suffices hsel : ∀ hh a, signSelect T ⟨dsa, alg, hash, padding⟩ = .ok (hh, a) → hh.isSome = true →
       verifySelect T ⟨dsa, alg, hash, padding⟩ = .ok (hh, a) by
     cases hs : signSelect T ⟨dsa, alg, hash, padding⟩ with
@@ -77,36 +67,28 @@ theorem verify_plan_matches_sign_plan (T : Tables2) (p : SigParams) (sp : SigPla
     | none => simp [hd] at hs; rw [← hs.1] at hsome; simp at hsome
     | some pr =>
       obtain ⟨dh, da⟩ := pr
-      have hc' := hc d dh da rfl hd
-      simp only [hd, Except.ok.injEq, Prod.mk.injEq] at hs
-      have c1 : ((Option.map (fun x => x.fst) (hash.bind (lookupHash T))).isSome &&
-          (Option.map (fun x => x.fst) (hash.bind (lookupHash T)) != some dh)) = false := by
-        cases hh' : hash with
-        | none => simp
-        | some hv =>
-          cases hl : lookupHash T hv with
-          | none => simp [hl]
-          | some r =>
-            obtain ⟨hn, dg⟩ := r
-            have := hc'.1 hv hn dg hh' hl
-            simp [hl, this]
-      have c2 : (alg.isSome && (alg != some da)) = false := by
-        cases ha : alg with
-        | none => rfl
-        | some a' => simp [hc'.2 a' ha]
-      simp only [c1, c2, Bool.false_eq_true, if_false, Except.ok.injEq, Prod.mk.injEq]
-      exact hs
+      simp only [hd] at hs
+      simp only
+      split at hs
+      · cases hs
+      · rename_i c1
+        split at hs
+        · cases hs
+        · rename_i c2
+          simp only [c1, c2]
+          exact hs
   | none =>
     simp only [Option.bind_none]
     by_cases hb : (alg.isSome && hash.isSome) = true
     · simpa [hb] using hs
     · simp [hb] at hs
 
-/-- **Sign mirrors SignatureVerify** (the converse), for the tuples whose digital signature algorithm is
-absent or known to the engine: what `verify_signature` accepts, `sign` accepts with the same scheme and
+/-- **Sign mirrors SignatureVerify** (the converse; PARTIAL: for the tuples whose digital signature algorithm is
+absent or known to the engine, and given that the PKCS1v15 class is in the padding table — true of the real
+tables, `real_pkcs1v15_class_present`): what `verify_signature` accepts, `sign` accepts with the same scheme and
 hash.  (For an UNKNOWN digital signature algorithm the two functions differ: `verify_signature` ignores
 it and uses the request's own algorithms, `sign` refuses — see `unknown_dsa_verify_only`.) -/
-theorem sign_plan_matches_verify_plan (T : Tables2) (p : SigParams) (vp : SigPlan)
+theorem sign_plan_matches_verify_plan_partial (T : Tables2) (p : SigParams) (vp : SigPlan)
     (h : verifyPlan T p = .ok vp) (hd : ∀ d, p.dsa = some d → (lookupDsa T d).isSome = true)
     (hp : (T.asymPadding.lookup padPKCS1v15).isSome = true) : signPlan T p = .ok vp := by
   obtain ⟨dsa, alg, hash, padding⟩ := p
@@ -144,9 +126,12 @@ theorem sign_plan_matches_verify_plan (T : Tables2) (p : SigParams) (vp : SigPla
         simp only [Option.bind_some, hl] at hv ⊢
         split at hv
         · cases hv
-        · split at hv
+        · rename_i c1
+          split at hv
           · cases hv
-          · exact hv
+          · rename_i c2
+            simp only [c1, c2]
+            exact hv
     | none =>
       simp only [Option.bind_none, Except.ok.injEq, Prod.mk.injEq] at hv
       obtain ⟨hv1, hv2⟩ := hv
@@ -159,10 +144,10 @@ theorem sign_plan_matches_verify_plan (T : Tables2) (p : SigParams) (vp : SigPla
       simp [halg, hhash, hv1]
 
 /-- **SignatureVerify reports valid for what Sign produced**: for every parameter tuple, key, randomness
-and message, if Sign succeeds under a tuple that does not contradict itself, SignatureVerify under the same
+and message, if Sign succeeds, SignatureVerify under the same
 tuple with the matching public key answers valid — given the law of the primitive (`Prims2.verify_sign`). -/
 theorem verify_sign (P : Prims2) (T : Tables2) (p : SigParams) (key rnd msg sg : Bytes)
-    (h : signOp P T p key rnd msg = .ok sg) (hc : Consistent T p) :
+    (h : signOp P T p key rnd msg = .ok sg) :
     verifyOp P T p (P.pubOf key) msg sg = .ok true := by
   unfold signOp at h
   cases hs : signPlan T p with
@@ -175,16 +160,14 @@ theorem verify_sign (P : Prims2) (T : Tables2) (p : SigParams) (key rnd msg sg :
       simp only [hr, Except.ok.injEq] at h
       subst h
       unfold verifyOp
-      rw [verify_plan_matches_sign_plan T p pl hs hc]
+      rw [verify_plan_matches_sign_plan T p pl hs]
       simp [P.verify_sign pl key rnd msg s hr]
 
-/-- the code as it is: `sign` lets a digital signature algorithm REPLACE the other two algorithms,
-`verify_signature` COMPARES them — so a contradictory tuple is signed under and then refused
-(finding c06:verify-refuses-sign-parameters; `Consistent` above is exactly what rules it out) -/
-theorem sign_accepts_what_verify_refuses :
-    signPlan realTables ⟨some 5, some 4, some 4, some 10⟩ = .ok ⟨.pss, [83, 72, 65, 50, 53, 54]⟩ ∧
+/-- a tuple that contradicts its digital signature algorithm is refused by both functions -/
+theorem contradictory_parameters_refused_by_both :
+    signPlan realTables ⟨some 5, some 4, some 4, some 10⟩ = .error .signHashMismatch ∧
     verifyPlan realTables ⟨some 5, some 4, some 4, some 10⟩ = .error .verifyHashMismatch ∧
-    signPlan realTables ⟨some 5, some 5, none, some 8⟩ = .ok ⟨.pkcs1v15, [83, 72, 65, 50, 53, 54]⟩ ∧
+    signPlan realTables ⟨some 5, some 5, none, some 8⟩ = .error .signAlgMismatch ∧
     verifyPlan realTables ⟨some 5, some 5, none, some 8⟩ = .error .verifyAlgMismatch := by decide +kernel
 
 /-- the code as it is: a digital signature algorithm the engine does not know (here DSA with SHA-1) is
@@ -494,22 +477,10 @@ theorem derive_encrypt_plan (T : Tables2) (p : DeriveParams) (pl : DerivePlan) (
 
 /-! #### no internal error (feeds C13) -/
 
-/-- a `derive_key` call the code as it is handles: key material present, derivation data present where the
-method hashes / encrypts / feeds it to the counter-mode KDF, a positive iteration count, and an HKDF output
-no longer than 255 digests -/
-structure DeriveWellFormed (T : Tables2) (p : DeriveParams) : Prop where
-  key : p.keyMaterial.isSome = true
-  data : (p.method = mNIST800_108_C ∨ p.method = mENCRYPT) → p.ddata.isSome = true
-  iters : ∀ i : Int, p.iterations = some i → 1 ≤ i
-  hkdf : p.method = mHMAC → ∀ hv hn dg, p.hash = some hv → lookupHash T hv = some (hn, dg) → p.length ≤ 255 * dg
-
-/-- **derive_plan_total** (partial: under `DeriveWellFormed`; the four theorems after it show that each
-clause is needed for the code as it is — findings c06:derive-internal-error:*): every well-formed parameter
-tuple gives a plan or a refusal with a KMIP reason (Invalid Field, Cryptographic Failure); no exception
-escapes `derive_key`. -/
-theorem derive_plan_total_partial (T : Tables2) (p : DeriveParams) (hw : DeriveWellFormed T p) (e : PErr)
+/-- **derive_plan_total**: every parameter tuple gives a plan or a refusal with a KMIP reason (Invalid
+Field, Cryptographic Failure); no exception escapes `derive_key` at the plan stage. -/
+theorem derive_plan_total (T : Tables2) (p : DeriveParams) (e : PErr)
     (h : derivePlan T p = .error e) : e.reason ≠ .internal := by
-  obtain ⟨hkey, hdata, hiters, hhkdf⟩ := hw
   unfold derivePlan at h
   cp_split_all h
   all_goals first
@@ -517,70 +488,37 @@ theorem derive_plan_total_partial (T : Tables2) (p : DeriveParams) (hw : DeriveW
     | (simp only [Except.error.injEq] at h; subst h; simp [PErr.reason]; done)
     | (simp only [Except.error.injEq] at h; subst h
        rw [asym_enc_refusal_reason T _ _ ‹_›]; simp; done)
-    | (exfalso
-       have hm : p.method = mHMAC := by simpa using ‹(p.method == mHMAC) = true›
-       have := hhkdf hm _ _ _ ‹p.hash = some _› ‹lookupHash T _ = some (_, _)›
-       omega)
-    | (exfalso; have := hiters _ ‹p.iterations = some _›; omega)
-    | (exfalso; simp_all; done)
 
-/-- the code as it is, 1: HKDF asked for more than 255 digests: `hkdf.HKDF(…)` raises ValueError -/
-theorem derive_hkdf_escapes (T : Tables2) (p : DeriveParams) (hv : Nat) (hn : HashName) (dg : Nat)
-    (hm : p.method = mHMAC) (hh : p.hash = some hv) (hl : lookupHash T hv = some (hn, dg)) (hlen : 255 * dg < p.length) :
-    derivePlan T p = .error (.internal .hkdfLength) := by
-  unfold derivePlan
-  simp [hm, hh, hl, mHMAC, mENCRYPT, hlen]
-
-/-- the code as it is, 2: PBKDF2 with an iteration count below 1: `pbkdf2.PBKDF2HMAC(…)` raises -/
-theorem derive_pbkdf2_escapes (T : Tables2) (p : DeriveParams) (hv : Nat) (hn : HashName) (dg : Nat) (i : Int)
-    (hm : p.method = mPBKDF2) (hh : p.hash = some hv) (hl : lookupHash T hv = some (hn, dg))
-    (hs : p.salt.isSome = true) (hi : p.iterations = some i) (hlt : i < 1) :
-    derivePlan T p = .error (.internal .pbkdf2Iterations) := by
-  unfold derivePlan
-  cases hsalt : p.salt with
-  | none => simp [hsalt] at hs
-  | some sv => simp [hm, hh, hl, mHMAC, mENCRYPT, mPBKDF2, mHASH, hi, hlt]
-
-/-- the code as it is, 3: SP 800-108 counter mode without derivation data: `kbkdf.KBKDFHMAC(fixed=None, …)` raises -/
-theorem derive_kbkdf_escapes (T : Tables2) (p : DeriveParams) (hv : Nat) (hn : HashName) (dg : Nat)
-    (hm : p.method = mNIST800_108_C) (hh : p.hash = some hv) (hl : lookupHash T hv = some (hn, dg))
-    (hd : p.ddata = none) : derivePlan T p = .error (.internal .kbkdfNoFixedInput) := by
-  unfold derivePlan
-  simp [hm, hh, hl, mHMAC, mENCRYPT, mPBKDF2, mHASH, mNIST800_108_C, hd]
-
-/-- the code as it is, 4: ENCRYPT in a padded mode (CBC, ECB) without derivation data: the padder is fed
-None outside any try block -/
-theorem derive_encrypt_escapes (T : Tables2) (p : DeriveParams) (a : Nat) (s : Crypto.Plan)
-    (hm : p.method = mENCRYPT) (ha : p.encAlg = some a) (hr : a ≠ rsa) (hk : p.keyMaterial.isSome = true)
-    (hs : encPlan T.sym ⟨a, p.mode, p.padding, p.iv, false, none⟩ = .ok s) (hp : s.padding.isSome = true)
-    (hd : p.ddata = none) : derivePlan T p = .error (.internal .padNoPlainText) := by
-  have hl : ∃ r, T.sym.symAlgs.lookup a = some r := by
-    unfold encPlan at hs
-    cases hx : List.lookup a T.sym.symAlgs with
-    | none => simp [hx] at hs
-    | some r => exact ⟨r, rfl⟩
-  obtain ⟨r, hl⟩ := hl
-  have hkn : p.keyMaterial.isNone = false := by
-    cases hkm : p.keyMaterial with
-    | none => simp [hkm] at hk
-    | some _ => rfl
-  unfold derivePlan
-  simp [hm, ha, hr, hl, hkn, hs, hd, hp]
-
-/-- what `_process_derive_key` hands to the engine always has key material; so a DeriveKey REQUEST is
-answered General Failure by the code as it is exactly in the four cases above -/
-theorem server_derive_well_formed (T : Tables2) (r : DeriveRequest) (n : Nat)
-    (hdata : (r.method = mNIST800_108_C ∨ r.method = mENCRYPT) → r.ddata.isSome = true)
-    (hiters : ∀ i : Int, r.iterations = some i → 1 ≤ i)
-    (hhkdf : r.method = mHMAC → ∀ hv hn dg, r.hash = some hv → lookupHash T hv = some (hn, dg) → n ≤ 255 * dg) :
-    DeriveWellFormed T (engineParams r n) := by
-  refine ⟨rfl, ?_, hiters, hhkdf⟩
-  intro hm
-  have := hdata hm
-  simp only [engineParams]
-  cases hd : r.ddata with
-  | none => simp [hd] at this
-  | some _ => rfl
+/-- the parameter errors of `derive_key` are Invalid Field: an HKDF output longer than 255 digests, a
+PBKDF2 iteration count below 1, derivation data missing for SP 800-108 counter mode or for ENCRYPT -/
+theorem derive_parameter_errors (T : Tables2) (p : DeriveParams) :
+    (p.method = mENCRYPT → p.ddata = none → derivePlan T p = .error .derivationDataMissing) ∧
+    (∀ hv hn dg, p.hash = some hv → lookupHash T hv = some (hn, dg) →
+      (p.method = mHMAC → p.keyMaterial.isSome = true → 255 * dg < p.length → derivePlan T p = .error .hkdfLengthTooLarge) ∧
+      (p.method = mNIST800_108_C → p.ddata = none → derivePlan T p = .error .derivationDataMissing) ∧
+      (∀ i : Int, p.method = mPBKDF2 → p.salt.isSome = true → p.iterations = some i → i < 1 →
+        derivePlan T p = .error .iterationsNotPositive)) := by
+  refine ⟨?_, ?_⟩
+  · intro hm hd
+    unfold derivePlan
+    simp [hm, hd]
+  · intro hv hn dg hh hl
+    refine ⟨?_, ?_, ?_⟩
+    · intro hm hk hlen
+      have hkn : p.keyMaterial.isNone = false := by
+        cases hkm : p.keyMaterial with
+        | none => simp [hkm] at hk
+        | some _ => rfl
+      unfold derivePlan
+      simp [hm, hh, hl, mHMAC, mENCRYPT, hlen, hkn]
+    · intro hm hd
+      unfold derivePlan
+      simp [hm, hh, hl, mHMAC, mENCRYPT, mPBKDF2, mHASH, mNIST800_108_C, hd]
+    · intro i hm hs hi hlt
+      unfold derivePlan
+      cases hsalt : p.salt with
+      | none => simp [hsalt] at hs
+      | some sv => simp [hm, hh, hl, mHMAC, mENCRYPT, mPBKDF2, mHASH, hi, hlt]
 
 /-- no other plan function of this model lets an exception escape, on the real tables: MAC,
 SignatureVerify, asymmetric Encrypt / Decrypt, key wrapping (crypto engine and `_process_get`), key creation
@@ -900,9 +838,6 @@ def toyPrims : Prims2 where
 -- Sign accepts consistent tuples (so `verify_plan_matches_sign_plan` is not vacuous) …
 example : signPlan realTables ⟨some 5, some 4, some 6, some 10⟩ = .ok ⟨.pss, [83, 72, 65, 50, 53, 54]⟩ := by decide +kernel
 example : signPlan realTables ⟨none, some 4, some 4, some 8⟩ = .ok ⟨.pkcs1v15, [83, 72, 65, 49]⟩ := by decide +kernel
--- … and `Consistent` holds for them
-example : Consistent realTables ⟨none, some 4, some 4, some 8⟩ := by
-  intro d dh da h; cases h
 example : verifyOp toyPrims realTables ⟨none, some 4, some 4, some 8⟩ [1] [2] [1, 2] = .ok true := by decide +kernel
 example : signOp toyPrims realTables ⟨none, some 4, some 4, some 8⟩ [1] [] [2] = .ok [1, 2] := by decide +kernel
 -- asymmetric encryption accepts OAEP/SHA-256 and PKCS#1 v1.5
@@ -925,27 +860,15 @@ example : deriveLength (some 128) = .ok 16 ∧ deriveLength (some (-8)) = .error
 example : processDeriveKey toyPrims realTables
     ⟨some 64, 3, [1, 2], some [3], some [4], none, none, some 6, none, none, none⟩ [] = .ok [0, 0, 0, 0, 0, 0, 0, 0] := by
   decide +kernel
--- `DeriveWellFormed` is satisfiable, and each of its clauses is needed on the real tables
-example : DeriveWellFormed realTables ⟨3, 16, some 4, some 16, some 6, some 8, none, none, none, none, some 0⟩ := by
-  refine ⟨rfl, fun _ => rfl, ?_, ?_⟩
-  · intro i h; cases h
-  · intro _ hv hn dg hh hl
-    simp only [Option.some.injEq] at hh
-    subst hh
-    have : lookupHash realTables 6 = some ([83, 72, 65, 50, 53, 54], 32) := by decide +kernel
-    rw [this] at hl
-    simp only [Option.some.injEq, Prod.mk.injEq] at hl
-    obtain ⟨_, hdg⟩ := hl
-    subst hdg
-    decide
+-- the parameter errors are refusals with a KMIP reason
 example : derivePlan realTables ⟨3, 8161, some 4, some 16, some 6, some 8, none, none, none, none, some 0⟩ =
-    .error (.internal .hkdfLength) := by decide +kernel
+    .error .hkdfLengthTooLarge := by decide +kernel
 example : derivePlan realTables ⟨1, 16, none, some 16, some 6, some 8, some 0, none, none, none, some 0⟩ =
-    .error (.internal .pbkdf2Iterations) := by decide +kernel
+    .error .iterationsNotPositive := by decide +kernel
 example : derivePlan realTables ⟨5, 16, none, some 16, some 6, none, none, none, none, none, some 0⟩ =
-    .error (.internal .kbkdfNoFixedInput) := by decide +kernel
+    .error .derivationDataMissing := by decide +kernel
 example : derivePlan realTables ⟨4, 16, none, some 16, none, none, none, some 3, some 1, some 3, some 16⟩ =
-    .error (.internal .padNoPlainText) := by decide +kernel
+    .error .derivationDataMissing := by decide +kernel
 -- MAC, wrapping, creation
 example : macPlan realTables (some 9) = .ok (.hmac [83, 72, 65, 50, 53, 54] 32) ∧
     macPlan realTables (some 3) = .ok (.cmac 3 "AES" 16) ∧ macPlan realTables (some 22) = .error .cmacStreamCipher ∧
